@@ -1,6 +1,8 @@
 package main
 
 import (
+	"crypto/sha1"
+	"encoding/hex"
 	"fmt"
 	"go/constant"
 	"go/token"
@@ -1172,7 +1174,7 @@ func (x *Exec) execBlock(fr *Frame, b *ssa.BasicBlock, st *State, incoming map[*
 			return
 		case *ssa.Panic:
 			if fr.nopanic {
-				x.vc.oblige(fmt.Sprintf("%s/explicit-panic#%d", fr.unit, fr.nextOrd("panic")), "explicit-panic", fr.unit, x.pos(i.Pos()), "panic statement unreachable", st.pc, "false")
+				x.vc.oblige(fmt.Sprintf("%s/explicit-panic%s", fr.unit, x.ordTag(fr, "panic", i.Pos())), "explicit-panic", fr.unit, x.pos(i.Pos()), "panic statement unreachable", st.pc, "false")
 			} else {
 				fr.nextOrd("panic")
 			}
@@ -1377,7 +1379,7 @@ func (x *Exec) nilCheck(fr *Frame, st *State, ptr string, pos token.Pos, what st
 	}
 	g := fmt.Sprintf("(not (= %s 0))", ptr)
 	if fr.nopanic {
-		x.vc.oblige(fmt.Sprintf("%s/nil-deref#%d", fr.unit, fr.nextOrd("nil")), "nil-deref", fr.unit, x.pos(pos), what, st.pc, g)
+		x.vc.oblige(fmt.Sprintf("%s/nil-deref%s", fr.unit, x.ordTag(fr, "nil", pos)), "nil-deref", fr.unit, x.pos(pos), what, st.pc, g)
 	} else {
 		fr.nextOrd("nil")
 		x.vc.assume(st.pc, g)
@@ -1387,7 +1389,7 @@ func (x *Exec) nilCheck(fr *Frame, st *State, ptr string, pos token.Pos, what st
 func (x *Exec) boundsCheck(fr *Frame, st *State, idx, n string, pos token.Pos, what string) {
 	g := fmt.Sprintf("(and (<= 0 %s) (< %s %s))", idx, idx, n)
 	if fr.nopanic {
-		x.vc.oblige(fmt.Sprintf("%s/index#%d", fr.unit, fr.nextOrd("index")), "index", fr.unit, x.pos(pos), what, st.pc, g)
+		x.vc.oblige(fmt.Sprintf("%s/index%s", fr.unit, x.ordTag(fr, "index", pos)), "index", fr.unit, x.pos(pos), what, st.pc, g)
 	} else {
 		fr.nextOrd("index")
 		x.vc.assume(st.pc, g)
@@ -1479,4 +1481,37 @@ func (fr *Frame) siteMayBeInLoop(li *loopInfo, atSite string) bool {
 		}
 	}
 	return false
+}
+
+// ordTag names a safety obligation within its unit.  Units under contract use
+// the ordinal among the obligations of that kind (#k).  Zero-annotation sweep
+// units are matched against a baseline of undecided obligations, so their
+// names must survive unrelated edits of the file: they use a hash of the
+// source line's text and the occurrence number among equal lines (@h.k).
+func (x *Exec) ordTag(fr *Frame, kind string, pos token.Pos) string {
+	n := fr.nextOrd(kind)
+	if x.top == nil || x.top.ct == nil || !x.top.ct.Sweep || !pos.IsValid() {
+		return fmt.Sprintf("#%d", n)
+	}
+	ps := x.eng.fset.Position(pos)
+	text := x.eng.sourceLine(ps.Filename, ps.Line)
+	sum := sha1.Sum([]byte(strings.Join(strings.Fields(text), " ")))
+	h := hex.EncodeToString(sum[:])[:6]
+	return fmt.Sprintf("@%s.%d", h, fr.nextOrd("h:"+kind+h))
+}
+
+func (e *Engine) sourceLine(file string, line int) string {
+	if e.srcLines == nil {
+		e.srcLines = map[string][]string{}
+	}
+	ls, ok := e.srcLines[file]
+	if !ok {
+		data, _ := os.ReadFile(file)
+		ls = strings.Split(string(data), "\n")
+		e.srcLines[file] = ls
+	}
+	if line >= 1 && line <= len(ls) {
+		return ls[line-1]
+	}
+	return ""
 }
